@@ -30,10 +30,12 @@ def toErr (j : Json) : Option Err :=
   | .ok "ValueError" => some .valueErr
   | .ok "TypeError" => some .typeErr
   | .ok "FitKeyError" => some .fitKeyErr
+  | .ok "FitDataError" => some .fitDataErr
   | _ => none
 
 def errS : Err → String
   | .keyErr => "KeyError" | .valueErr => "ValueError" | .typeErr => "TypeError" | .fitKeyErr => "FitKeyError"
+  | .fitDataErr => "FitDataError"
 
 def optErrs (j : Json) : List (Option Err) :=
   match j.getObjVal? "optErr" with
